@@ -28,7 +28,7 @@ type c20Case struct {
 }
 
 var c20Steps = []string{"login-ok", "login-bad", "visit-full", "visit-none", "logout", "recover", "register", "otp-login", "remember", "otp-add", "login-ok",
-	"recover-bad", "confirm-bad", "login-unknown", "get-pages", "register-dup", "recover-unknown", "recover-refused", "odd-methods", "totp-qr"}
+	"recover-bad", "confirm-bad", "login-unknown", "get-pages", "register-dup", "recover-unknown", "recover-refused", "odd-methods", "totp-qr", "sms-login"}
 
 type c20Client struct {
 	w    *harness.World
@@ -179,6 +179,15 @@ func (c *c20Client) run(script []string) {
 		case "recover-refused":
 			// the client's second account lives in a domain whose mail server refuses it: the mailer's error path
 			c.do(name, "POST", P("/recover"), map[string]string{"email": fmt.Sprintf("bounce%d@refuse.x.io", c.i)}, nil)
+		case "sms-login":
+			// the client's second account has SMS 2FA: password step, a wrong code, then the texted one
+			smsPID := fmt.Sprintf("sms%d@x.io", c.i)
+			c.do(name+".pw", "POST", P("/login"), map[string]string{"email": smsPID, "password": goodPWs[c.i%4]}, nil)
+			c.do(name+".wrong", "POST", P("/2fa/sms/validate"), map[string]string{"code": "000000"}, nil)
+			code := w.Jars[c.i].SessionCopy()["sms_secret"]
+			c.out = append(c.out, fmt.Sprintf("%s.code: got=%v", name, code != ""))
+			c.do(name+".code", "POST", P("/2fa/sms/validate"), map[string]string{"code": code}, nil)
+			c.do(name+".out", "DELETE", P("/logout"), nil, nil)
 		case "totp-qr":
 			// start a TOTP enrolment and fetch its QR image (a rendered PNG) a few times
 			c.do(name+".login", "POST", P("/login"), map[string]string{"email": c.pid, "password": c.pw}, nil)
@@ -339,7 +348,7 @@ func c20Gen(t *rapid.T) c20Case {
 	var c c20Case
 	k := rapid.IntRange(2, 8).Draw(t, "clients")
 	c.Cfg = harness.Config{Seed: rapid.Uint64Range(1, 1<<32).Draw(t, "seed"), Modules: []string{"auth", "confirm", "lock", "logout", "otp", "recover", "register", "remember"},
-		Setups: []string{"expire", "totp", "recovery"}, Mount: pick(t, "mount", "/auth", ""), JSON: chance(t, "json", 50), Browsers: k, Middleware: "remember",
+		Setups: []string{"expire", "totp", "sms", "recovery"}, Mount: pick(t, "mount", "/auth", ""), JSON: chance(t, "json", 50), Browsers: k, Middleware: "remember",
 		LockAfter: 4, LockWindowS: 300, LockDurS: 600, RecoverLogin: chance(t, "reclogin", 50), MailGo: chance(t, "mailgo", 60),
 		Mailer: pick(t, "mailer", "", "log", "smtp", "smtp"), ShippedLog: chance(t, "shippedlog", 70), ModuleList: chance(t, "modlist", 50), Err500: chance(t, "err500", 50), Refusal: 1}
 	for i := 0; i < k; i++ {
@@ -353,6 +362,9 @@ func c20Gen(t *rapid.T) c20Case {
 	}
 	for i := 0; i < k; i++ {
 		c.Cfg.Accounts = append(c.Cfg.Accounts, harness.AccountSpec{PID: fmt.Sprintf("bounce%d@refuse.x.io", i), Password: goodPWs[i%4]})
+	}
+	for i := 0; i < k; i++ {
+		c.Cfg.Accounts = append(c.Cfg.Accounts, harness.AccountSpec{PID: fmt.Sprintf("sms%d@x.io", i), Password: goodPWs[i%4], Phone: fmt.Sprintf("+1555010%d", i), Recovery: 1})
 	}
 	c.Procs = pick(t, "procs", 2, 4, 16)
 	c.Perturb = rapid.Uint64Range(0, 1<<20).Draw(t, "perturb")
